@@ -166,3 +166,23 @@ brk("c14-publish-other-nonce", ["C14", "C06"], (KMS, "        return nonce, tag,
 brk("c14-second-site-static-nonce", ["C14"], (ENC, "        encrypted_asset = nonce + tag + ciphertext\n", "        encrypted_asset = nonce + tag + ciphertext\n        if len(asset_plaintext) == 0:\n            from cryptography.hazmat.primitives.ciphers.aead import AESGCM\n            encrypted_asset = bytes(12) + AESGCM(bytes(32)).encrypt(bytes(12), b\"\", enc_structure_encoded)\n"))
 ben("c14-secrets-local", ["C14", "C06"], (KMS, "        nonce = os.urandom(12)\n        ciphertext_response = aesgcm.encrypt(nonce, plaintext, aad)", "        iv = os.urandom(12)\n        nonce = iv\n        ciphertext_response = aesgcm.encrypt(iv, plaintext, aad)"))
 ben("c06-aad-from-hex", ["C06"], (ENC, "        enc_structure_encoded = bytes(\n            [0x83, 0x67, 0x45, 0x6E, 0x63, 0x72, 0x79, 0x70, 0x74, 0x43, 0xA1, 0x01, 0x03, 0x40]\n        )", '        enc_structure_encoded = bytes.fromhex("8367456e637279707443a1010340")'))
+
+# ------------------------------------------------------------------ C04 signing
+brk("c04-context-string", ["C04"], (SIGN, 'data = ["Signature1", cbor2.dumps(protected), b"", cbor2.dumps(self.get_digest())]', 'data = ["Signature", cbor2.dumps(protected), b"", cbor2.dumps(self.get_digest())]'))
+brk("c04-no-external-aad", ["C04"], (SIGN, 'data = ["Signature1", cbor2.dumps(protected), b"", cbor2.dumps(self.get_digest())]', 'data = ["Signature1", cbor2.dumps(protected), cbor2.dumps(self.get_digest())]'))
+brk("c04-digest-unwrapped", ["C04"], (SIGN, 'data = ["Signature1", cbor2.dumps(protected), b"", cbor2.dumps(self.get_digest())]', 'data = ["Signature1", cbor2.dumps(protected), b"", self.get_digest()[1]]'))
+brk("c04-keyid-plain", ["C04"], (SIGN, "SuitIds.COSE_KEY_ID.value: cbor2.dumps(self._key_id),", "SuitIds.COSE_KEY_ID.value: self._key_id,"))
+brk("c04-tag-17", ["C04"], (SIGN, "auth_block = cbor2.CBORTag(18, data)", "auth_block = cbor2.CBORTag(17, data)"))
+brk("c04-alg-table-es521", ["C04", "C08"], (SIGN, "COSE_ALG_ES_521 = -36", "COSE_ALG_ES_521 = -35"), )
+brk("c04-width-bitlength", ["C04"], (KMS, '        return r.to_bytes(math.ceil(private_key.key_size / 8), byteorder="big") + s.to_bytes(', '        return r.to_bytes((r.bit_length() + 7) // 8, byteorder="big") + s.to_bytes('))
+brk("c04-width-floor", ["C04"], (KMS, '        return r.to_bytes(math.ceil(private_key.key_size / 8), byteorder="big") + s.to_bytes(\n            math.ceil(private_key.key_size / 8), byteorder="big"', '        return r.to_bytes(private_key.key_size // 8 + 1, byteorder="big") + s.to_bytes(\n            private_key.key_size // 8 + 1, byteorder="big"'))
+brk("c04-hash-521-sha384", ["C04"], (KMS, "521: hashes.SHA512()}", "521: hashes.SHA384()}"))
+brk("c04-s-then-r", ["C04"], (KMS, "        r, s = decode_dss_signature(dss_signature)", "        s, r = decode_dss_signature(dss_signature)"))
+brk("c04-write-manifest-key", ["C04"], (SIGN, "        auth_block.append(cbor2.dumps(new_auth))\n", "        auth_block.append(cbor2.dumps(new_auth))\n        self.envelope.value[SuitIds.SUIT_MANIFEST.value] = bytes(self.envelope.value[SuitIds.SUIT_MANIFEST.value])\n"))
+brk("c04-unprotected-header-alg", ["C04"], (SIGN, "data = [cbor2.dumps(protected), unprotected if unprotected is not None else {}, None, signature]", "data = [cbor2.dumps(protected), unprotected if unprotected is not None else protected, None, signature]"))
+brk("c04-sign-other-header", ["C04"], (SIGN, "        self.add_signature(signature, protected=protected)", "        protected[SuitIds.COSE_KEY_ID.value] = cbor2.dumps(self._key_id & 0xFFFF)\n        self.add_signature(signature, protected=protected)"))
+brk("c04-prehash-sha256", ["C04"], (KMS, "prehashed_message = SHA512.new(input_data)", "prehashed_message = SHA512.new(input_data[:64])"))
+brk("c04-unfix-frozen", ["C04"], (SIGN, "        self.envelope = cbor2.CBORTag(input_envelope.tag, dict(input_envelope.value))", "        self.envelope = input_envelope"),
+    (SIGNCMD, "    return cbor2.CBORTag(envelope.tag, dict(envelope.value))", "    return envelope"))
+ben("c04-width-int-arith", ["C04"], (KMS, '        return r.to_bytes(math.ceil(private_key.key_size / 8), byteorder="big") + s.to_bytes(\n            math.ceil(private_key.key_size / 8), byteorder="big"', '        return r.to_bytes((private_key.key_size + 7) // 8, byteorder="big") + s.to_bytes(\n            (private_key.key_size + 7) // 8, byteorder="big"'))
+ben("c04-inline-block", ["C04"], (SIGN, "        new_auth = self.create_authentication_block(protected, unprotected, signature)\n", "        new_auth = cbor2.CBORTag(18, [cbor2.dumps(protected), unprotected if unprotected is not None else {}, None, signature])\n"))
